@@ -7,8 +7,11 @@ operation states that existed before untouched.
 namespace PikaVerif.Snd
 open PikaVerif
 
+/-- Nothing at or above the allocation pointer has been destroyed. -/
+def Fresh (s : M) : Prop := ∀ a, s.next ≤ a → s.freed a = false
+
 /-- `s'` is `s` after some adaptor-internal work: flags and the terminal log are unchanged,
-    operation states allocated before (other than `x`) are unchanged. -/
+    operation states allocated before (other than `x`) are unchanged and not destroyed. -/
 structure Ext (x : Nat) (s s' : M) : Prop where
   aborted : s'.aborted = false
   released : s'.released = false
@@ -16,31 +19,43 @@ structure Ext (x : Nat) (s s' : M) : Prop where
   log : s'.log = s.log
   next : s.next ≤ s'.next
   cells : ∀ a, a < s.next → a ≠ x → s'.cells a = s.cells a
+  freed : ∀ a, a < s.next → s'.freed a = s.freed a
+  fresh : Fresh s → Fresh s'
 
 theorem Ext.refl (x : Nat) (s : M) (ha : s.aborted = false) (hr : s.released = false) : Ext x s s :=
-  ⟨ha, hr, rfl, rfl, Nat.le_refl _, fun _ _ _ => rfl⟩
+  ⟨ha, hr, rfl, rfl, Nat.le_refl _, fun _ _ _ => rfl, fun _ _ => rfl, id⟩
 
 theorem Ext.trans {x : Nat} {s s' s'' : M} (h1 : Ext x s s') (h2 : Ext x s' s'') : Ext x s s'' :=
   ⟨h2.aborted, h2.released, h2.uaf.trans h1.uaf, h2.log.trans h1.log, Nat.le_trans h1.next h2.next,
-   fun a ha hx => (h2.cells a (Nat.lt_of_lt_of_le ha h1.next) hx).trans (h1.cells a ha hx)⟩
+   fun a ha hx => (h2.cells a (Nat.lt_of_lt_of_le ha h1.next) hx).trans (h1.cells a ha hx),
+   fun a ha => (h2.freed a (Nat.lt_of_lt_of_le ha h1.next)).trans (h1.freed a ha),
+   fun hf => h2.fresh (h1.fresh hf)⟩
 
 /-- An exception address at or above `s.next` is no exception at all. -/
 theorem Ext.weaken {y : Nat} (x : Nat) {s s' : M} (hy : s.next ≤ y) (h : Ext y s s') : Ext x s s' :=
-  ⟨h.aborted, h.released, h.uaf, h.log, h.next, fun a ha _ => h.cells a ha (by omega)⟩
+  ⟨h.aborted, h.released, h.uaf, h.log, h.next, fun a ha _ => h.cells a ha (by omega), h.freed, h.fresh⟩
 
-theorem touch_id {s : M} (hr : s.released = false) : touch s = s := by simp [touch, hr]
+theorem touch_id {a : Nat} {s : M} (hr : s.released = false) (hf : s.freed a = false) :
+    touch a s = s := by simp [touch, hr, hf]
 
 theorem Ext.alloc (c : Cell) (s : M) (ha : s.aborted = false) (hr : s.released = false) :
     Ext s.next s (alloc c s) :=
   ⟨ha, hr, rfl, rfl, Nat.le_succ _, fun a h _ => by
     show upd s.cells s.next c a = s.cells a
-    exact upd_other _ _ _ _ (by omega)⟩
+    exact upd_other _ _ _ _ (by omega), fun _ _ => rfl,
+   fun hf a h => hf a (by have h' : s.next + 1 ≤ a := h; omega)⟩
 
 theorem Ext.setCell (a : Nat) (c : Cell) (s : M) (ha : s.aborted = false) (hr : s.released = false) :
     Ext a s (setCell a c s) :=
   ⟨ha, hr, rfl, rfl, Nat.le_refl _, fun b _ hb => by
     show upd s.cells a c b = s.cells b
-    exact upd_other _ _ _ _ hb⟩
+    exact upd_other _ _ _ _ hb, fun _ _ => rfl, id⟩
+
+/-- the cell allocated by `alloc` is not destroyed as long as only `Ext` steps follow -/
+theorem own_alive {c : Cell} {s s1 : M} {x : Nat} (hf : Fresh s) (x1 : Ext x (alloc c s) s1) :
+    s1.freed s.next = false := by
+  rw [x1.freed s.next (by simp [alloc])]
+  exact hf s.next (Nat.le_refl _)
 
 /-! ### `when_all`: the pure part -/
 
@@ -121,33 +136,190 @@ theorem denotes_length (cs : List Term) (env : List Int) : (denotes cs env).leng
   | nil => simp [denotes]
   | cons c cs ih => simp [denotes, ih]
 
+/-! ### Stopped-free terms (for the pinned code variant) -/
+
+mutual
+/-- No `stop` leaf and no scheduler completing with stopped: such a pipeline can never complete
+    with `set_stopped`. -/
+def stoppedFree : Term → Bool
+  | .just _ => true
+  | .err _ => true
+  | .stop => false
+  | .arg => true
+  | .thn _ p => stoppedFree p
+  | .lv _ p b => stoppedFree p && stoppedFree b
+  | .le _ p b => stoppedFree p && stoppedFree b
+  | .dv p => stoppedFree p
+  | .un p => stoppedFree p
+  | .co sc p => decide (sc ≠ .s) && stoppedFree p
+  | .tj sc _ => decide (sc ≠ .s)
+  | .wa c cs => stoppedFree c && stoppedFrees cs
+  | .wv cs => stoppedFrees cs
+  | .sp p => stoppedFree p
+  | .es p => stoppedFree p
+  | .st _ p => stoppedFree p
+  | .bulk _ _ p => stoppedFree p
+  | .rs p => stoppedFree p
+  | .dos p => stoppedFree p
+  | .sd sc => decide (sc ≠ .s)
+def stoppedFrees : List Term → Bool
+  | [] => true
+  | c :: cs => stoppedFree c && stoppedFrees cs
+end
+
+theorem applySch_ns (sc : Sch) (h : sc ≠ .s) (sig : Sig) (hs : sig ≠ .stopped) :
+    applySch sc sig ≠ .stopped := by
+  cases sig <;> cases sc <;> simp_all [applySch]
+
+theorem applyThen_ns (f : Fn) (sig : Sig) (hs : sig ≠ .stopped) : applyThen f sig ≠ .stopped := by
+  cases sig <;> simp_all [applyThen]
+  split <;> simp
+
+theorem applyBulk_ns (n : Nat) (f : Fn) (sig : Sig) (hs : sig ≠ .stopped) :
+    applyBulk n f sig ≠ .stopped := by
+  cases sig <;> simp_all [applyBulk]
+  split <;> simp
+
+theorem joinAux_ns (l : List Sig) (h : ∀ x, x ∈ l → x ≠ .stopped) : ∀ acc, joinAux acc l ≠ .stopped := by
+  induction l with
+  | nil => intro acc; simp [joinAux]
+  | cons x r ih =>
+    intro acc
+    cases x with
+    | value vs => simp only [joinAux]; exact ih (fun y hy => h y (List.mem_cons_of_mem _ hy)) _
+    | error e => simp [joinAux]
+    | stopped => exact absurd rfl (h .stopped (List.mem_cons_self))
+
+/-- A stopped-free term never denotes stopped. -/
+theorem denote_ns : ∀ t : Term, stoppedFree t = true → ∀ env, denote t env ≠ .stopped
+  | .just _, _, _ => by simp [denote]
+  | .err _, _, _ => by simp [denote]
+  | .stop, h, _ => by simp [stoppedFree] at h
+  | .arg, _, _ => by simp [denote]
+  | .thn f p, h, env => by
+    simp only [stoppedFree] at h
+    simp only [denote]; exact applyThen_ns f _ (denote_ns p h env)
+  | .lv f p b, h, env => by
+    simp only [stoppedFree, Bool.and_eq_true] at h
+    have hp := denote_ns p h.1 env
+    simp only [denote]
+    cases hd : denote p env with
+    | value vs =>
+      simp only
+      cases f.apply vs with
+      | ok r => exact denote_ns b h.2 r
+      | error e => simp
+    | error e => simp
+    | stopped => exact absurd hd hp
+  | .le f p b, h, env => by
+    simp only [stoppedFree, Bool.and_eq_true] at h
+    have hp := denote_ns p h.1 env
+    simp only [denote]
+    cases hd : denote p env with
+    | error e =>
+      simp only
+      cases f.apply [e] with
+      | ok r => exact denote_ns b h.2 r
+      | error e => simp
+    | value vs => simp
+    | stopped => exact absurd hd hp
+  | .dv p, h, env => by
+    simp only [stoppedFree] at h
+    have hp := denote_ns p h env
+    simp only [denote]
+    cases hd : denote p env <;> simp_all
+  | .un p, h, env => by
+    simp only [stoppedFree] at h
+    simp only [denote]; exact denote_ns p h env
+  | .co sc p, h, env => by
+    simp only [stoppedFree, Bool.and_eq_true, decide_eq_true_eq] at h
+    simp only [denote]; exact applySch_ns sc h.1 _ (denote_ns p h.2 env)
+  | .tj sc vs, h, env => by
+    simp only [stoppedFree, decide_eq_true_eq] at h
+    simp only [denote]; exact applySch_ns sc h _ (by simp)
+  | .sd sc, h, env => by
+    simp only [stoppedFree, decide_eq_true_eq] at h
+    simp only [denote]; exact applySch_ns sc h _ (by simp)
+  | .wa c cs, h, env => by
+    simp only [stoppedFree, Bool.and_eq_true] at h
+    simp only [denote, join]
+    apply joinAux_ns
+    intro x hx
+    rcases List.mem_cons.mp hx with hx | hx
+    · rw [hx]; exact denote_ns c h.1 env
+    · exact denotes_ns cs h.2 env x hx
+  | .wv cs, h, env => by
+    simp only [stoppedFree] at h
+    simp only [denote, join]
+    exact joinAux_ns _ (denotes_ns cs h env) _
+  | .sp p, h, env => by
+    simp only [stoppedFree] at h
+    simp only [denote]; exact denote_ns p h env
+  | .es p, h, env => by
+    simp only [stoppedFree] at h
+    simp only [denote]; exact denote_ns p h env
+  | .rs p, h, env => by
+    simp only [stoppedFree] at h
+    simp only [denote]; exact denote_ns p h env
+  | .dos p, h, env => by
+    simp only [stoppedFree] at h
+    simp only [denote]; exact denote_ns p h env
+  | .st i p, h, env => by
+    simp only [stoppedFree] at h
+    have hp := denote_ns p h env
+    simp only [denote]
+    cases hd : denote p env <;> simp_all
+  | .bulk n f p, h, env => by
+    simp only [stoppedFree] at h
+    simp only [denote]; exact applyBulk_ns n f _ (denote_ns p h env)
+where
+  denotes_ns : ∀ cs : List Term, stoppedFrees cs = true → ∀ env x, x ∈ denotes cs env → x ≠ .stopped
+  | [], _, _, x, hx => by simp [denotes] at hx
+  | c :: cs, h, env, x, hx => by
+    simp only [stoppedFrees, Bool.and_eq_true] at h
+    simp only [denotes] at hx
+    rcases List.mem_cons.mp hx with hx | hx
+    · rw [hx]; exact denote_ns c h.1 env
+    · exact denotes_ns cs h.2 env x hx
+
+/-- The code variant handles the term: either it is the repaired tree, or the term can never
+    complete with stopped (the only completion the pinned `split` / `split_tuple` mishandle). -/
+def Good (cfg : Cfg) (t : Term) : Prop := cfg.ok = true ∨ stoppedFree t = true
+def GoodL (cfg : Cfg) (cs : List Term) : Prop := cfg.ok = true ∨ stoppedFrees cs = true
+
+theorem storeR_ns (flag : Bool) (a : Nat) (sig : Sig) (s : M) (h : flag = true ∨ sig ≠ .stopped) :
+    storeR flag a sig s = storeR true a sig s := by
+  rcases h with h | h
+  · rw [h]
+  · cases sig <;> simp_all [storeR]
+
 /-! ### The receiver contract, by structural induction over terms -/
 
 /-- The statement for one term: whatever receiver is connected and whatever the machine state,
     `start` ends by calling the receiver once with the denoted signal. -/
 def Spec (cfg : Cfg) (t : Term) : Prop :=
-  ∀ (env : List Int) (k : Rc) (s : M), s.aborted = false → s.released = false →
+  ∀ (env : List Int) (k : Rc) (s : M), s.aborted = false → s.released = false → Fresh s →
     ∃ s', start cfg t env k s = k (denote t env) s' ∧ Ext s.next s s'
 
 /-- The statement for the tail of a `when_all` start loop that has just delivered `sig` from
     predecessor `i` to the operation state at `a`. -/
 def SpecAll (cfg : Cfg) (cs : List Term) : Prop :=
   ∀ (env : List Int) (sd : Bool) (a : Nat) (k : Rc) (i : Nat) (sig : Sig) (s : M),
-    s.aborted = false → s.released = false → a < s.next →
+    s.aborted = false → s.released = false → Fresh s → a < s.next → s.freed a = false →
     (s.cells a).remaining = cs.length + 1 →
-    ∃ s', startAll cfg cs env (fun j => waR sd a j k) (i + 1) (waR sd a i k sig s) =
+    ∃ s', startAll cfg cs env (fun j => waR sd a j k) a (i + 1) (waR sd a i k sig s) =
         deliver (waFinish sd (waRun i (s.cells a) (sig :: denotes cs env))) k s' ∧ Ext a s s'
 
 theorem specAll_nil (cfg : Cfg) : SpecAll cfg [] := by
-  intro env sd a k i sig s ha hr _ hrem
+  intro env sd a k i sig s ha hr _ _ hfa hrem
   refine ⟨setCell a (waDec (waStep i (s.cells a) sig)) s, ?_, Ext.setCell _ _ _ ha hr⟩
   have h0 : (waStep i (s.cells a) sig).remaining - 1 = 0 := by
     cases sig <;> simp [waStep] <;> (try split) <;> simp_all
-  simp only [startAll, waR, touch_id hr, denotes, waRun, waDec, h0, if_true]
+  simp only [startAll, waR, touch_id hr hfa, denotes, waRun, waDec, h0, if_true]
 
 theorem specAll_cons (cfg : Cfg) (c : Term) (cs : List Term) (hc : Spec cfg c)
     (hcs : SpecAll cfg cs) : SpecAll cfg (c :: cs) := by
-  intro env sd a k i sig s ha hr hlt hrem
+  intro env sd a k i sig s ha hr hF hlt hfa hrem
   -- the receiver call: counter does not reach zero
   let w' := waDec (waStep i (s.cells a) sig)
   have hw' : w'.remaining = cs.length + 1 := by
@@ -157,23 +329,25 @@ theorem specAll_cons (cfg : Cfg) (c : Term) (cs : List Term) (hc : Spec cfg c)
     rw [this, hrem]; simp
   have hne : ¬ (w'.remaining = 0) := by omega
   have e1 : waR sd a i k sig s = setCell a w' s := by
-    simp only [waR, touch_id hr]
+    simp only [waR, touch_id hr hfa]
     show (if w'.remaining = 0 then _ else setCell a w' s) = _
     rw [if_neg hne]
   have x1 : Ext a s (setCell a w' s) := Ext.setCell _ _ _ ha hr
   -- the next predecessor
-  obtain ⟨s2, e2, x2⟩ := hc env (waR sd a (i + 1) k) (setCell a w' s) x1.aborted x1.released
+  have hfa1 : (setCell a w' s).freed a = false := hfa
+  obtain ⟨s2, e2, x2⟩ := hc env (waR sd a (i + 1) k) (setCell a w' s) x1.aborted x1.released (x1.fresh hF)
   have hlt1 : a < (setCell a w' s).next := hlt
+  have hfa2 : s2.freed a = false := by rw [x2.freed a hlt1]; exact hfa
   have hcell2 : s2.cells a = w' := by
     have hs : (setCell a w' s).cells a = w' := by simp [setCell]
     by_cases hx : a = (setCell a w' s).next
     · omega
     · rw [x2.cells a hlt1 hx, hs]
   obtain ⟨s3, e3, x3⟩ := hcs env sd a k (i + 1) (denote c env) s2 x2.aborted x2.released
-    (Nat.lt_of_lt_of_le hlt1 x2.next) (by rw [hcell2, hw'])
+    (x2.fresh (x1.fresh hF)) (Nat.lt_of_lt_of_le hlt1 x2.next) hfa2 (by rw [hcell2, hw'])
   refine ⟨s3, ?_, x1.trans ((x2.weaken a (Nat.le_refl _)).trans x3)⟩
   rw [e1]
-  simp only [startAll, touch_id x1.released]
+  simp only [startAll, touch_id x1.released hfa1]
   rw [e2, e3, hcell2]
   simp only [denotes, waRun]
   rfl
@@ -183,156 +357,239 @@ def toStored : Sig → Stored
   | .error e => .error e
   | .stopped => .stopped
 
-theorem storeR_eq (a : Nat) (sig : Sig) (s : M) (hr : s.released = false) (hcell : s.cells a = {}) :
+theorem storeR_eq (a : Nat) (sig : Sig) (s : M) (hr : s.released = false) (hfa : s.freed a = false)
+    (hcell : s.cells a = {}) :
     storeR true a sig s = setCell a { stored := toStored sig, done := true } s := by
-  cases sig <;> simp [storeR, touch_id hr, hcell, toStored]
+  cases sig <;> simp [storeR, touch_id hr hfa, hcell, toStored]
 
 theorem visit_done (a : Nat) (sel : List Int → List Int) (k : Rc) (s : M) (ha : s.aborted = false)
-    (hr : s.released = false) (hd : (s.cells a).done = true) :
+    (hr : s.released = false) (hfa : s.freed a = false) (hd : (s.cells a).done = true) :
     visit a sel k s = match (s.cells a).stored with
       | .mono => abort s
       | .stopped => k .stopped s
       | .error e => k (.error e) s
       | .value vs => k (.value (sel vs)) s := by
-  simp only [visit, ha, touch_id hr, hd, Bool.false_eq_true, if_false, if_true]
+  simp only [visit, ha, touch_id hr hfa, hd, Bool.false_eq_true, if_false, if_true]
   cases (s.cells a).stored <;> rfl
 
 theorem spec_visit (cfg : Cfg) (p : Term) (flag : Bool) (sel : List Int → List Int)
-    (hflag : flag = true) (hp : Spec cfg p) (env : List Int) (k : Rc) (s : M)
-    (ha : s.aborted = false) (hr : s.released = false) :
+    (hflag : flag = true ∨ ∀ env, denote p env ≠ .stopped) (hp : Spec cfg p) (env : List Int) (k : Rc) (s : M)
+    (ha : s.aborted = false) (hr : s.released = false) (hF : Fresh s) :
     ∃ s', visit s.next sel k (start cfg p env (storeR flag s.next) (alloc {} s)) =
         k (match denote p env with | .value vs => .value (sel vs) | o => o) s' ∧ Ext s.next s s' := by
-  subst hflag
   have x0 := Ext.alloc {} s ha hr
-  obtain ⟨s1, e1, x1⟩ := hp env (storeR true s.next) (alloc {} s) x0.aborted x0.released
+  obtain ⟨s1, e1, x1⟩ := hp env (storeR flag s.next) (alloc {} s) x0.aborted x0.released (x0.fresh hF)
+  rw [storeR_ns flag _ _ _ (hflag.imp id (fun h => h env))] at e1
+  have hfa : s1.freed s.next = false := own_alive hF x1
   have hcell : s1.cells s.next = {} := by
     have : (alloc {} s).cells s.next = {} := by simp [alloc]
     rw [x1.cells s.next (by simp [alloc]) (by simp [alloc]), this]
-  rw [e1, storeR_eq _ _ _ x1.released hcell]
+  rw [e1, storeR_eq _ _ _ x1.released hfa hcell]
   have x2 := Ext.setCell s.next { stored := toStored (denote p env), done := true } s1
     x1.aborted x1.released
   refine ⟨_, ?_, x0.trans ((x1.weaken s.next (by simp [alloc])).trans x2)⟩
-  rw [visit_done _ _ _ _ x2.aborted x2.released (by simp [setCell])]
+  rw [visit_done _ _ _ _ x2.aborted x2.released (by simpa [setCell] using hfa) (by simp [setCell])]
   cases denote p env <;> simp [setCell, toStored]
 
 theorem schedR_value (sc : Sch) (a : Nat) (k : Rc) (vs : List Int) (s : M) (ha : s.aborted = false)
-    (hr : s.released = false) :
+    (hr : s.released = false) (hfa : s.freed a = false) :
     ∃ s', schedR sc a k (.value vs) s = k (applySch sc (.value vs)) s' ∧ Ext a s s' := by
   refine ⟨setCell a { s.cells a with stored := .value vs } s, ?_, Ext.setCell _ _ _ ha hr⟩
-  have h2 : touch (setCell a { s.cells a with stored := .value vs } s) =
-      setCell a { s.cells a with stored := .value vs } s := touch_id hr
-  cases sc <;> simp only [schedR, touch_id hr, applySch, h2] <;> simp [setCell]
+  have h2 : touch a (setCell a { s.cells a with stored := .value vs } s) =
+      setCell a { s.cells a with stored := .value vs } s := touch_id hr hfa
+  cases sc <;> simp only [schedR, touch_id hr hfa, applySch, h2] <;> simp [setCell]
 
-/-- **Receiver contract** for every term of the language (code variant `cfg.ok`). -/
-theorem spec (cfg : Cfg) (hc : cfg.ok = true) : ∀ t : Term, Spec cfg t
-  | .just vs => fun env k s ha hr => ⟨s, by simp [start, ha, denote], Ext.refl _ _ ha hr⟩
-  | .err e => fun env k s ha hr => ⟨s, by simp [start, ha, denote], Ext.refl _ _ ha hr⟩
-  | .stop => fun env k s ha hr => ⟨s, by simp [start, ha, denote], Ext.refl _ _ ha hr⟩
-  | .arg => fun env k s ha hr => ⟨s, by simp [start, ha, denote], Ext.refl _ _ ha hr⟩
-  | .thn f p => fun env k s ha hr => by
-    obtain ⟨s1, e1, x1⟩ := spec cfg hc p env (thenR f k) s ha hr
+theorem spec_fwd (cfg : Cfg) (p : Term) (c : Cell) (hp : Spec cfg p) (env : List Int) (k : Rc) (s : M)
+    (ha : s.aborted = false) (hr : s.released = false) (hF : Fresh s) :
+    ∃ s', start cfg p env (fwdR s.next k) (alloc c s) = k (denote p env) s' ∧ Ext s.next s s' := by
+  have x0 := Ext.alloc c s ha hr
+  obtain ⟨s1, e1, x1⟩ := hp env (fwdR s.next k) (alloc c s) x0.aborted x0.released (x0.fresh hF)
+  refine ⟨s1, ?_, x0.trans (x1.weaken s.next (by simp [alloc]))⟩
+  rw [e1]; simp only [fwdR, touch_id x1.released (own_alive hF x1)]
+
+/-- `drop_operation_state`: the predecessor's operation states are destroyed inside the
+    completion call, then the signal is forwarded; nothing allocated before is affected. -/
+theorem spec_dos (cfg : Cfg) (p : Term) (hp : Spec cfg p) (env : List Int) (k : Rc) (s : M)
+    (ha : s.aborted = false) (hr : s.released = false) (hF : Fresh s) :
+    ∃ s', start cfg p env (dropOpR s.next k) (alloc {} s) = k (denote p env) s' ∧ Ext s.next s s' ∧
+      (∀ a, s.next < a → a < s'.next → s'.freed a = true) ∧ s'.freed s.next = false := by
+  have x0 := Ext.alloc {} s ha hr
+  obtain ⟨s1, e1, x1⟩ := hp env (dropOpR s.next k) (alloc {} s) x0.aborted x0.released (x0.fresh hF)
+  have x01 := x0.trans (x1.weaken s.next (by simp [alloc]))
+  refine ⟨freeRange (s.next + 1) s1.next s1, ?_, ?_, ?_, ?_⟩
+  · rw [e1]; simp only [dropOpR, touch_id x1.released (own_alive hF x1)]
+  · refine ⟨x01.aborted, x01.released, x01.uaf, x01.log, x01.next, x01.cells, ?_, ?_⟩
+    · intro a h
+      show ((decide (s.next + 1 ≤ a) && decide (a < s1.next)) || s1.freed a) = s.freed a
+      have : ¬ (s.next + 1 ≤ a) := by omega
+      simp [this, x01.freed a h]
+    · intro hf a h
+      show ((decide (s.next + 1 ≤ a) && decide (a < s1.next)) || s1.freed a) = false
+      have h' : s1.next ≤ a := h
+      have : ¬ (a < s1.next) := by omega
+      simp [this, x01.fresh hf a h']
+  · intro a h1 h2
+    show ((decide (s.next + 1 ≤ a) && decide (a < s1.next)) || s1.freed a) = true
+    have h2' : a < s1.next := h2
+    have : s.next + 1 ≤ a := h1
+    simp [this, h2']
+  · show ((decide (s.next + 1 ≤ s.next) && decide (s.next < s1.next)) || s1.freed s.next) = false
+    have : ¬ (s.next + 1 ≤ s.next) := by omega
+    simp [own_alive hF x1, this]
+
+theorem good_of {cfg : Cfg} {t t' : Term} (hg : Good cfg t)
+    (h : stoppedFree t = true → stoppedFree t' = true) : Good cfg t' := hg.imp id h
+
+/-- **Receiver contract** for every term the code variant handles: every term for the repaired
+    tree (`cfg.ok`), every stopped-free term for the pinned tree. -/
+theorem specG (cfg : Cfg) (hw : cfg.wvSendsDone = true) : ∀ t : Term, Good cfg t → Spec cfg t
+  | .just vs, _ => fun env k s ha hr hF => ⟨s, by simp [start, ha, denote], Ext.refl _ _ ha hr⟩
+  | .err e, _ => fun env k s ha hr hF => ⟨s, by simp [start, ha, denote], Ext.refl _ _ ha hr⟩
+  | .stop, _ => fun env k s ha hr hF => ⟨s, by simp [start, ha, denote], Ext.refl _ _ ha hr⟩
+  | .arg, _ => fun env k s ha hr hF => ⟨s, by simp [start, ha, denote], Ext.refl _ _ ha hr⟩
+  | .sd sc, _ => fun env k s ha hr hF => ⟨s, by simp [start, ha, denote], Ext.refl _ _ ha hr⟩
+  | .thn f p, hg => fun env k s ha hr hF => by
+    obtain ⟨s1, e1, x1⟩ := specG cfg hw p (good_of hg (by simp [stoppedFree])) env (thenR f k) s ha hr hF
     exact ⟨s1, by simp [start, ha, denote, e1, thenR], x1⟩
-  | .dv p => fun env k s ha hr => by
-    obtain ⟨s1, e1, x1⟩ := spec cfg hc p env (dropR k) s ha hr
+  | .bulk n f p, hg => fun env k s ha hr hF => by
+    obtain ⟨s1, e1, x1⟩ := specG cfg hw p (good_of hg (by simp [stoppedFree])) env (bulkR n f k) s ha hr hF
+    exact ⟨s1, by simp [start, ha, denote, e1, bulkR], x1⟩
+  | .rs p, hg => fun env k s ha hr hF => by
+    obtain ⟨s1, e1, x1⟩ := spec_fwd cfg p { done := true }
+      (specG cfg hw p (good_of hg (by simp [stoppedFree]))) env k s ha hr hF
+    exact ⟨s1, by simp [start, ha, denote, e1], x1⟩
+  | .dos p, hg => fun env k s ha hr hF => by
+    obtain ⟨s1, e1, x1, _, _⟩ := spec_dos cfg p
+      (specG cfg hw p (good_of hg (by simp [stoppedFree]))) env k s ha hr hF
+    exact ⟨s1, by simp [start, ha, denote, e1], x1⟩
+  | .dv p, hg => fun env k s ha hr hF => by
+    obtain ⟨s1, e1, x1⟩ := specG cfg hw p (good_of hg (by simp [stoppedFree])) env (dropR k) s ha hr hF
     refine ⟨s1, ?_, x1⟩
     simp only [start, ha, denote, e1, dropR]
     cases denote p env <;> simp
-  | .un p => fun env k s ha hr => by
-    obtain ⟨s1, e1, x1⟩ := spec cfg hc p env (unR k) s ha hr
+  | .un p, hg => fun env k s ha hr hF => by
+    obtain ⟨s1, e1, x1⟩ := specG cfg hw p (good_of hg (by simp [stoppedFree])) env (unR k) s ha hr hF
     refine ⟨s1, ?_, x1⟩
     simp only [start, ha, denote, e1, unR]
     cases denote p env <;> simp
-  | .lv f p b => fun env k s ha hr => by
-    obtain ⟨s1, e1, x1⟩ := spec cfg hc p env _ s ha hr
+  | .lv f p b, hg => fun env k s ha hr hF => by
+    have hgp : Good cfg p := good_of hg (by simp only [stoppedFree, Bool.and_eq_true]; exact fun h => h.1)
+    have hgb : Good cfg b := good_of hg (by simp only [stoppedFree, Bool.and_eq_true]; exact fun h => h.2)
+    obtain ⟨s1, e1, x1⟩ := specG cfg hw p hgp env _ s ha hr hF
     simp only [start, ha, denote, Bool.false_eq_true, if_false]
     rw [e1]
     cases hd : denote p env with
     | value vs =>
       cases hf : f.apply vs with
       | ok r =>
-        obtain ⟨s2, e2, x2⟩ := spec cfg hc b r k s1 x1.aborted x1.released
+        obtain ⟨s2, e2, x2⟩ := specG cfg hw b hgb r k s1 x1.aborted x1.released (x1.fresh hF)
         exact ⟨s2, by simp [hf, e2], x1.trans (x2.weaken _ (Nat.le_refl _))⟩
       | error e => exact ⟨s1, by simp [hf], x1⟩
     | error e => exact ⟨s1, by simp, x1⟩
     | stopped => exact ⟨s1, by simp, x1⟩
-  | .le f p b => fun env k s ha hr => by
-    obtain ⟨s1, e1, x1⟩ := spec cfg hc p env _ s ha hr
+  | .le f p b, hg => fun env k s ha hr hF => by
+    have hgp : Good cfg p := good_of hg (by simp only [stoppedFree, Bool.and_eq_true]; exact fun h => h.1)
+    have hgb : Good cfg b := good_of hg (by simp only [stoppedFree, Bool.and_eq_true]; exact fun h => h.2)
+    obtain ⟨s1, e1, x1⟩ := specG cfg hw p hgp env _ s ha hr hF
     simp only [start, ha, denote, Bool.false_eq_true, if_false]
     rw [e1]
     cases hd : denote p env with
     | error e =>
       cases hf : f.apply [e] with
       | ok r =>
-        obtain ⟨s2, e2, x2⟩ := spec cfg hc b r k s1 x1.aborted x1.released
+        obtain ⟨s2, e2, x2⟩ := specG cfg hw b hgb r k s1 x1.aborted x1.released (x1.fresh hF)
         exact ⟨s2, by simp [hf, e2], x1.trans (x2.weaken _ (Nat.le_refl _))⟩
       | error e' => exact ⟨s1, by simp [hf], x1⟩
     | value vs => exact ⟨s1, by simp, x1⟩
     | stopped => exact ⟨s1, by simp, x1⟩
-  | .co sc p => fun env k s ha hr => by
+  | .co sc p, hg => fun env k s ha hr hF => by
+    have hgp : Good cfg p := good_of hg (by simp only [stoppedFree, Bool.and_eq_true]; exact fun h => h.2)
     have x0 := Ext.alloc {} s ha hr
-    obtain ⟨s1, e1, x1⟩ := spec cfg hc p env (schedR sc s.next k) (alloc {} s) x0.aborted x0.released
+    obtain ⟨s1, e1, x1⟩ := specG cfg hw p hgp env (schedR sc s.next k) (alloc {} s) x0.aborted x0.released (x0.fresh hF)
+    have hfa : s1.freed s.next = false := own_alive hF x1
     simp only [start, ha, denote, Bool.false_eq_true, if_false]
     rw [e1]
     have x01 := x0.trans (x1.weaken s.next (by simp [alloc]))
     cases hd : denote p env with
     | value vs =>
-      obtain ⟨s2, e2, x2⟩ := schedR_value sc s.next k vs s1 x1.aborted x1.released
+      obtain ⟨s2, e2, x2⟩ := schedR_value sc s.next k vs s1 x1.aborted x1.released hfa
       exact ⟨s2, e2, x01.trans x2⟩
-    | error e => exact ⟨s1, by simp [schedR, applySch, touch_id x1.released], x01⟩
-    | stopped => exact ⟨s1, by simp [schedR, applySch, touch_id x1.released], x01⟩
-  | .tj sc vs => fun env k s ha hr => by
+    | error e => exact ⟨s1, by simp [schedR, applySch, touch_id x1.released hfa], x01⟩
+    | stopped => exact ⟨s1, by simp [schedR, applySch, touch_id x1.released hfa], x01⟩
+  | .tj sc vs, _ => fun env k s ha hr hF => by
     have x0 := Ext.alloc {} s ha hr
     simp only [start, ha, denote, Bool.false_eq_true, if_false]
     obtain ⟨s2, e2, x2⟩ := schedR_value sc s.next k vs (alloc {} s) x0.aborted x0.released
+      (hF s.next (Nat.le_refl _))
     exact ⟨s2, e2, x0.trans x2⟩
-  | .sp p => fun env k s ha hr => by
-    have hf : cfg.splitStoresStopped = true := by
-      simp [Cfg.ok] at hc; exact hc.1.1
-    obtain ⟨s1, e1, x1⟩ := spec_visit cfg p _ (fun v => v) hf (spec cfg hc p) env k s ha hr
+  | .sp p, hg => fun env k s ha hr hF => by
+    have hgp : Good cfg p := good_of hg (by simp [stoppedFree])
+    have hf : cfg.splitStoresStopped = true ∨ ∀ env, denote p env ≠ .stopped := by
+      rcases hg with hc | hs
+      · left; simp [Cfg.ok] at hc; exact hc.1.1
+      · right; exact denote_ns p (by simpa [stoppedFree] using hs)
+    obtain ⟨s1, e1, x1⟩ := spec_visit cfg p _ (fun v => v) hf (specG cfg hw p hgp) env k s ha hr hF
     refine ⟨s1, ?_, x1⟩
     simp only [start, ha, denote, Bool.false_eq_true, if_false]
     rw [e1]; cases denote p env <;> rfl
-  | .es p => fun env k s ha hr => by
-    obtain ⟨s1, e1, x1⟩ := spec_visit cfg p _ (fun v => v) rfl (spec cfg hc p) env k s ha hr
+  | .es p, hg => fun env k s ha hr hF => by
+    have hgp : Good cfg p := good_of hg (by simp [stoppedFree])
+    obtain ⟨s1, e1, x1⟩ := spec_visit cfg p _ (fun v => v) (Or.inl rfl) (specG cfg hw p hgp) env k s ha hr hF
     refine ⟨s1, ?_, x1⟩
     simp only [start, ha, denote, Bool.false_eq_true, if_false]
     rw [e1]; cases denote p env <;> rfl
-  | .st i p => fun env k s ha hr => by
-    have hf : cfg.tupleStoresStopped = true := by
-      simp [Cfg.ok] at hc; exact hc.1.2
-    obtain ⟨s1, e1, x1⟩ := spec_visit cfg p _ (pick i) hf (spec cfg hc p) env k s ha hr
+  | .st i p, hg => fun env k s ha hr hF => by
+    have hgp : Good cfg p := good_of hg (by simp [stoppedFree])
+    have hf : cfg.tupleStoresStopped = true ∨ ∀ env, denote p env ≠ .stopped := by
+      rcases hg with hc | hs
+      · left; simp [Cfg.ok] at hc; exact hc.1.2
+      · right; exact denote_ns p (by simpa [stoppedFree] using hs)
+    obtain ⟨s1, e1, x1⟩ := spec_visit cfg p _ (pick i) hf (specG cfg hw p hgp) env k s ha hr hF
     refine ⟨s1, ?_, x1⟩
     simp only [start, ha, denote, Bool.false_eq_true, if_false]
     rw [e1]; cases denote p env <;> rfl
-  | .wa c cs => fun env k s ha hr => by
+  | .wa c cs, hg => fun env k s ha hr hF => by
+    have hgc : Good cfg c := good_of hg (by simp only [stoppedFree, Bool.and_eq_true]; exact fun h => h.1)
+    have hgs : GoodL cfg cs := hg.imp id (by simp only [stoppedFree, Bool.and_eq_true]; exact fun h => h.2)
     have x0 := Ext.alloc { remaining := cs.length + 1, slots := List.replicate (cs.length + 1) none } s ha hr
-    obtain ⟨s1, e1, x1⟩ := spec cfg hc c env (waR true s.next 0 k) _ x0.aborted x0.released
+    obtain ⟨s1, e1, x1⟩ := specG cfg hw c hgc env (waR true s.next 0 k) _ x0.aborted x0.released (x0.fresh hF)
+    have hfa : s1.freed s.next = false := own_alive hF x1
     have hcell : s1.cells s.next = { remaining := cs.length + 1, slots := List.replicate (cs.length + 1) none } := by
       rw [x1.cells s.next (by simp [alloc]) (by simp [alloc])]; simp [alloc]
-    obtain ⟨s2, e2, x2⟩ := specAll cfg hc cs env true s.next k 0 (denote c env) s1 x1.aborted
-      x1.released (Nat.lt_of_lt_of_le (by simp [alloc]) x1.next) (by rw [hcell])
+    obtain ⟨s2, e2, x2⟩ := specAll cfg hw cs hgs env true s.next k 0 (denote c env) s1 x1.aborted
+      x1.released (x1.fresh (x0.fresh hF)) (Nat.lt_of_lt_of_le (by simp [alloc]) x1.next) hfa (by rw [hcell])
     refine ⟨s2, ?_, x0.trans ((x1.weaken s.next (by simp [alloc])).trans x2)⟩
-    simp only [start, ha, denote, Bool.false_eq_true, if_false, touch_id x0.released]
+    simp only [start, ha, denote, Bool.false_eq_true, if_false,
+      touch_id x0.released (show (alloc _ s).freed s.next = false from hF s.next (Nat.le_refl _))]
     rw [e1, e2, hcell, waFinish_init _ _ (by simp [denotes_length])]
     rfl
-  | .wv [] => fun env k s ha hr => ⟨s, by simp [start, ha, denote, denotes, join, joinAux], Ext.refl _ _ ha hr⟩
-  | .wv (c :: cs) => fun env k s ha hr => by
-    have hsd : cfg.wvSendsDone = true := by
-      simp [Cfg.ok] at hc; exact hc.2
+  | .wv [], _ => fun env k s ha hr hF => ⟨s, by simp [start, ha, denote, denotes, join, joinAux], Ext.refl _ _ ha hr⟩
+  | .wv (c :: cs), hg => fun env k s ha hr hF => by
+    have hgc : Good cfg c := good_of hg (by simp only [stoppedFree, stoppedFrees, Bool.and_eq_true]; exact fun h => h.1)
+    have hgs : GoodL cfg cs := hg.imp id (by simp only [stoppedFree, stoppedFrees, Bool.and_eq_true]; exact fun h => h.2)
     have x0 := Ext.alloc { remaining := cs.length + 1, slots := List.replicate (cs.length + 1) none } s ha hr
-    obtain ⟨s1, e1, x1⟩ := spec cfg hc c env (waR true s.next 0 k) _ x0.aborted x0.released
+    obtain ⟨s1, e1, x1⟩ := specG cfg hw c hgc env (waR true s.next 0 k) _ x0.aborted x0.released (x0.fresh hF)
+    have hfa : s1.freed s.next = false := own_alive hF x1
     have hcell : s1.cells s.next = { remaining := cs.length + 1, slots := List.replicate (cs.length + 1) none } := by
       rw [x1.cells s.next (by simp [alloc]) (by simp [alloc])]; simp [alloc]
-    obtain ⟨s2, e2, x2⟩ := specAll cfg hc cs env true s.next k 0 (denote c env) s1 x1.aborted
-      x1.released (Nat.lt_of_lt_of_le (by simp [alloc]) x1.next) (by rw [hcell])
+    obtain ⟨s2, e2, x2⟩ := specAll cfg hw cs hgs env true s.next k 0 (denote c env) s1 x1.aborted
+      x1.released (x1.fresh (x0.fresh hF)) (Nat.lt_of_lt_of_le (by simp [alloc]) x1.next) hfa (by rw [hcell])
     refine ⟨s2, ?_, x0.trans ((x1.weaken s.next (by simp [alloc])).trans x2)⟩
-    simp only [start, ha, denote, Bool.false_eq_true, if_false, List.isEmpty_cons, hsd, startAll,
-      touch_id x0.released, List.length_cons]
+    simp only [start, ha, denote, Bool.false_eq_true, if_false, List.isEmpty_cons, hw, startAll,
+      touch_id x0.released (show (alloc _ s).freed s.next = false from hF s.next (Nat.le_refl _)),
+      List.length_cons]
     rw [e1, e2, hcell, waFinish_init _ _ (by simp [denotes_length])]
     rfl
 where
-  specAll (cfg : Cfg) (hc : cfg.ok = true) : ∀ cs : List Term, SpecAll cfg cs
-  | [] => specAll_nil cfg
-  | c :: cs => specAll_cons cfg c cs (spec cfg hc c) (specAll cfg hc cs)
+  specAll (cfg : Cfg) (hw : cfg.wvSendsDone = true) : ∀ cs : List Term, GoodL cfg cs → SpecAll cfg cs
+  | [], _ => specAll_nil cfg
+  | c :: cs, hg =>
+    specAll_cons cfg c cs
+      (specG cfg hw c (hg.imp id (by simp only [stoppedFrees, Bool.and_eq_true]; exact fun h => h.1)))
+      (specAll cfg hw cs (hg.imp id (by simp only [stoppedFrees, Bool.and_eq_true]; exact fun h => h.2)))
+
+/-- **Receiver contract** for every term of the language (code variant `cfg.ok`). -/
+theorem spec (cfg : Cfg) (hc : cfg.ok = true) (t : Term) : Spec cfg t :=
+  specG cfg (by simp [Cfg.ok] at hc; exact hc.2) t (Or.inl hc)
 
 end PikaVerif.Snd
